@@ -1216,9 +1216,11 @@ class Ev:
 		assert isinstance(it.ty, TList)
 		free = sorted({x.id for x in ast.walk(ast.Module(body=[ast.Expr(elt)] + [ast.Expr(c) for c in g.ifs], type_ignores=[])) if isinstance(x, ast.Name)} - {t.id for t in ast.walk(g.target) if isinstance(t, ast.Name)})
 		caps = [(x, self.st.env[x]) for x in free if x in self.st.env and self.st.env[x].ty is not None and self.st.env[x].term is not None and not self.st.env[x].is_conc()]
-		cap_consts = [z3.Const(fresh_name(f'cap_{x}'), v.ty.sort()) for x, v in caps]  # type: ignore[union-attr]
-		seqc = z3.Const(fresh_name('cseq'), it.ty.sort())
-		nn = z3.Const(fresh_name('cn'), z3.IntSort())
+		# canonical parameter names: two comprehensions with the same element/filter structure (up to the bound variable's name)
+		# denote the same recursive function, so code and contract text meet in one symbol
+		cap_consts = [z3.Const(f'comp_cap{i}_{v.ty.sort().name()}'.replace(' ', '_'), v.ty.sort()) for i, (x, v) in enumerate(caps)]  # type: ignore[union-attr]
+		seqc = z3.Const(f'comp_seq_{it.ty.sort().name()}'.replace(' ', '_').replace('(', '').replace(')', ''), it.ty.sort())
+		nn = z3.Const('comp_n', z3.IntSort())
 		env = dict(self.st.env)
 		for (x, v), c in zip(caps, cap_consts):
 			env[x] = Val(v.ty, c)
@@ -1228,12 +1230,15 @@ class Ev:
 		cond = z3.And(*[sub.truth(c) for c in g.ifs]) if g.ifs else None
 		v = sub.eval(elt)
 		lty = TList(v.ty)  # type: ignore[arg-type]
-		fname = fresh_name('rf_comp').replace('!', '_')
-		f = z3.RecFunction(fname, it.ty.sort(), z3.IntSort(), *[c.sort() for c in cap_consts], lty.sort())
 		unit = z3.Unit(v.term)
 		step = unit if cond is None else z3.If(cond, unit, z3.Empty(lty.sort()))
-		z3.RecAddDefinition(f, [seqc, nn] + cap_consts, z3.If(nn <= 0, z3.Empty(lty.sort()), z3.Concat(f(seqc, nn - 1, *cap_consts), step)))
-		self.eng.rec_funcs[fname] = f
+		import hashlib as _hl
+		ckey = 'rf_comp_' + _hl.md5((str(it.ty) + '|' + str(lty) + '|' + step.sexpr() + '|' + ','.join(str(c.sort()) for c in cap_consts)).encode()).hexdigest()[:12]
+		f = self.eng.rec_funcs.get(ckey)
+		if f is None:
+			f = z3.RecFunction(ckey, it.ty.sort(), z3.IntSort(), *[c.sort() for c in cap_consts], lty.sort())
+			z3.RecAddDefinition(f, [seqc, nn] + cap_consts, z3.If(nn <= 0, z3.Empty(lty.sort()), z3.Concat(f(seqc, nn - 1, *cap_consts), step)))
+			self.eng.rec_funcs[ckey] = f
 		res = f(it.term, z3.Length(it.term), *[v.term for _, v in caps])
 		if cond is None and self.mode == 'code' or (cond is None and self.rw):
 			# consequences of the recursive definition (provable by induction on n), made available to the solver:
